@@ -309,5 +309,5 @@ Definition call_str (f : func) (fuel : nat) (arg : text) : outcome text :=
   | RErr x => Err x
   end.
 
-(* translate(pat): no `while` of the body iterates more than len(pat) + 1 times *)
-Definition run_translate (f : func) (pat : text) : outcome text := call_str f (S (S (length pat))) pat.
+(* translate(pat): no `while` of the body iterates more than len(pat) times (+ 1 for the test that ends it) *)
+Definition run_translate (f : func) (pat : text) : outcome text := call_str f (S (length pat)) pat.
